@@ -1,3 +1,6 @@
+pub mod chain;
+pub mod history;
+pub mod model;
 pub mod node;
 pub mod props;
 pub mod runner;
